@@ -614,6 +614,35 @@ def r8_no_dead_option(R, sh: SolverShape) -> None:
                         where=sh.fi.where)
 
 
+def r9_same_rejections_as_a_model(R, sh) -> None:
+    """A linker around one model behaves as that model does: what BaseModel.solve_t() rejects up front, BaseLinker.solve_t()
+    rejects too - contradictory iteration limits, a period that cannot accommodate the lags / leads (reads would wrap round
+    to the other end of the span)."""
+    from rules.common import Fn
+    from rules.solver_common import FalsyLimit
+    f = Fn(R, Q)
+    try:
+        t = sh.minmax_test()
+        rs = [b for (b, lab) in t.succ if lab == 'T' and isinstance(sh.cfg.nodes[b].ast, ast.Raise) and 'ValueError' in text(sh.cfg.nodes[b].ast)]
+        R.check(bool(rs), Q, 'linker-rejects-limits', 'min_iter > max_iter raises ValueError, as for a single model', 'the `min_iter > max_iter` test does not raise ValueError', where=sh.where(t))
+    except FalsyLimit as e:
+        R.violation(Q, 'limits-check-skipped-for-zero', str(e), where=sh.fi.where)
+    except AnchorMissing:
+        R.violation(Q, 'linker-accepts-contradictory-limits',
+                    'BaseLinker.solve_t() has no `min_iter > max_iter` rejection: solve_t(t, min_iter=9, max_iter=3) runs 3 iterations and records F where the model alone raises '
+                    'ValueError (only BaseLinker.solve() checks)', where=sh.fi.where)
+    feas = [r_ for r_ in f.raises('IndexError') if any(('self.lags' in text(a_) or "['lags']" in text(a_) or 'self.LAGS' in text(a_)) for (a_, _tr, _t) in f.guard_atoms(r_.id))
+            and any(('self.leads' in text(a_) or "['leads']" in text(a_) or 'self.LEADS' in text(a_)) for (a_, _tr, _t) in f.guard_atoms(r_.id))]
+    if not feas:
+        R.violation(Q, 'linker-serves-infeasible-period',
+                    'BaseLinker.solve_t() does not check that period t can accommodate the lags and leads: for a submodel with Y[-1], linker.solve_t(0) returns True with the lag read '
+                    'from the last period of the span (the model alone raises IndexError)', where=sh.fi.where)
+    else:
+        work = sh.n_eval
+        R.check(all(not f.cfg.reaches(work.id, r_.id) for r_ in feas), Q, 'linker-rejects-infeasible-period', 'a period that cannot accommodate the lags / leads is rejected before any work',
+                'the lags / leads rejection can come after the evaluation call', where=f.where(feas[0]))
+
+
 def run(R) -> None:
     R.explanation = (
         'C08: one CFG of BaseLinker.solve_t + evaluate_t + __init__: call order/dominance of the three per-iteration steps and '
@@ -632,3 +661,4 @@ def run(R) -> None:
     R.rule('C08.R6', lambda: r6_constructor(R))
     R.rule('C08.R7', lambda: c02.r7_definite_assignment(R, [sh]))
     R.rule('C08.R8', lambda: r8_no_dead_option(R, sh))
+    R.rule('C08.R9', lambda: r9_same_rejections_as_a_model(R, sh))
